@@ -191,6 +191,57 @@ def check_single_and_atomic(eng, run):
         run.finding("C16.single", cc, _stmt_at(cc, tr[-1]) if tr else cc.node, f"exit ({k}) of the client task without running the task-done hook: the client stays RUNNING for ever and its queued datagrams are stranded", tr)
     run.ob("C16.single", f"{cc.short}:hook-on-every-exit", not bad)
 
+    # C16.single: the precondition of mark_pending() (state is None, from C16.state) is *established* at every call site
+    class Pre(RuleAnalysis):
+        tokens = ("Exception", CANCELLED)
+
+        def __init__(self, e):
+            super().__init__(e)
+            self.viol = []
+            self.calls = 0
+
+        def initial(self, f):
+            return ["?"]
+
+        def may_raise(self, node, fact):
+            if isinstance(node, ast.Await):
+                return list(self.tokens)
+            return []
+
+        def transfer(self, node, fact):
+            if isinstance(node, ast.Await) or (isinstance(node, (WithEnter, WithExit)) and node.is_async):
+                if self.engine.summaries.atom_may_suspend(self.fn, node):
+                    return ["?"]
+            if _is_call_named(node, {"mark_done"}) and isinstance(node, ast.Call):
+                return ["none"]
+            if _is_call_named(node, {"mark_pending"}) and isinstance(node, ast.Call):
+                self.calls += 1
+                if fact != "none":
+                    self.viol.append(node)
+                return ["pending"]
+            return [fact]
+
+        def branch(self, test, fact):
+            if isinstance(test, ast.Compare) and len(test.ops) == 1 and isinstance(test.comparators[0], ast.Constant) and test.comparators[0].value is None:
+                left = dotted(test.left) or ""
+                if left.endswith(".state") or left == "state":
+                    if isinstance(test.ops[0], ast.Is):
+                        return ["none"], [fact if fact != "none" else "?"]
+                    if isinstance(test.ops[0], ast.IsNot):
+                        return [fact if fact != "none" else "?"], ["none"]
+            if isinstance(test, ast.Name):
+                return [fact], [fact]
+            return [fact], [fact]
+
+    for fn in (handler, hook):
+        pa = Pre(eng)
+        # a local caching the state (`state = client_data.state`) keeps the knowledge: handled through `state is None`
+        Interp(pa, fn).run()
+        for v in pa.viol[:1]:
+            run.finding("C16.single", fn, _stmt_at(fn, v.lineno), "mark_pending() is called on a path that did not just establish that the client's state is None (a test `state is None` / mark_done() with no suspension since): with a task already PENDING or RUNNING the state machine raises and the whole server task group is torn down, or two handlers run")
+        if pa.calls:
+            run.ob("C16.single", f"{fn.short}:mark_pending-precondition-established", not pa.viol, calls=pa.calls)
+
     # C16.atomic (a): state test -> mark_pending without suspension
     def reads_state(node):
         if isinstance(node, TestAtom):
@@ -299,9 +350,16 @@ def check_fifo(eng, run):
         n += len(uses) + len(alias_calls)
         has_both = {x.func.attr for _, x in uses + alias_calls} >= {"append", "popleft"}
         if not has_both:
-            run.finding("C16.fifo", next(iter(ci.methods.values())), ci.node, f"queue `{attr}` is no longer used with both append and popleft")
+            # name the function that iterates / indexes the queue instead of draining it
+            culprit = None
+            for fn in ci.methods.values():
+                for x in own_nodes(fn.node):
+                    if isinstance(x, (ast.For, ast.AsyncFor)) and attr.strip("_") in ast.unparse(x.iter):
+                        culprit = (fn, x)
+            cf, cn = culprit if culprit else (next(iter(ci.methods.values())), ci.node)
+            run.finding("C16.fifo", cf, cn, f"queue `{attr}` is no longer drained with popleft (appended on the right, removed on the left): queued datagrams are never removed - they are delivered again on the next serve() / grow without bound")
         run.ob("C16.fifo", f"{cname}.{attr}:append/popleft-only", not bad and has_both, uses=len(uses) + len(alias_calls))
-    run.floor("C16.fifo queue use sites", n, 5)
+    run.floor("C16.fifo queue use sites", n, 3)
     # datagram_received hands each datagram on exactly once, in callback order
     for cname, mod in (("DatagramListenerProtocol", "lowlevel.api_async.backend._asyncio.datagram.listener"),):
         ci = db.cls(f"{mod}.{cname}")
@@ -392,6 +450,14 @@ MUTANTS = [
             "C16.atomic", why="the append happens after the condition wait: arrival order != queue order"),
     Variant("listener-drops-when-serving", _LP + ".datagram_received", lambda fn: replace_stmt(fn, stmt_has("datagram_serve_ctx.handle(data, addr)"), "pass"), "C16.fifo"),
     Variant("handler-start-without-mark-pending", _H, lambda fn: delete_stmt(fn, stmt_is("client_data.mark_pending()")), "C16.single"),
+]
+
+MUTANTS += [
+    Variant("handler-starts-task-unless-running", _H, lambda fn: replace_expr(fn, "client_data.state is None", "client_data.state is not _ClientState.TASK_RUNNING"), "C16.single",
+            why="a datagram arriving while a replacement task is PENDING calls mark_pending() again: RuntimeError tears the server down"),
+    Variant("listener-iterates-delayed-queue", _LP + ".serve",
+            lambda fn: replace_stmt(fn, stmt_is("while self.__delayed_datagrams_queue"), "for data, addr in self.__delayed_datagrams_queue:\n    self.__datagram_serve_ctx.handle(data, addr)"), "C16.fifo",
+            why="datagrams received during set-up are delivered again on every later serve()"),
 ]
 
 BENIGN = [
